@@ -332,8 +332,6 @@ def match_known(ctx, case, key, out):
        and (o == "HANG" or re.search(r"^HANG runaway.*last chunk (00)+$", o)):
         # plain HANG (the driver's per-line guard): the loop runs against an internal callback (oer_open_type_put's counting pass)
         return ctx.match_finding(lambda f: f["id"] == "F78")
-    if kind == "new" and o.startswith("buf=nonnull encoded=-1"):
-        return ctx.match_finding(lambda f: f["id"] == "F39")
     return None
 
 
@@ -378,7 +376,9 @@ def evaluate(ctx, st, m, txt, opts, cases):
             if ret != -1: viol("P:ret<-1", c, "clean", c.clean)
             if clean["errno"] not in ("EBADF", "ENOENT", "EINVAL"): viol("P:failure-without-errno", c, "clean", c.clean)
             st.hist[("valid-value-refused", c.syn) if c.valid else ("invalid-refused", c.kind.split(":")[0], c.syn)] += 1
-        # ---- P: asn_encode_to_new_buffer: exact-length buffer or NULL
+        # ---- P: asn_encode_to_new_buffer: exact-length, NUL-terminated buffer on success; NULL (and the same -1/errno) on
+        #         failure (asn_application.h: "On failure: (.buffer) is NULL"; a buffer handed out with -1 is leaked by every
+        #         caller that follows the documentation — F39, fixed)
         if not dead(c.new):
             nb = parse_kv(c.new)
             if ret >= 0:
@@ -386,9 +386,8 @@ def evaluate(ctx, st, m, txt, opts, cases):
                     viol("P:to_new_buffer-not-exact", c, "new", c.new)
             else:
                 if int(nb["encoded"]) != -1 or nb["errno"] != clean["errno"]: viol("P:to_new_buffer-failure-differs", c, "new", c.new)
-                if c.new.startswith("buf=nonnull"):
-                    if match_known(ctx, c, "new", c.new): st.hist[("F39", c.syn)] += 1
-                    else: viol("P:to_new_buffer-buffer-on-failure", c, "new", c.new)
+                if not c.new.startswith("buf=null"): viol("P:to_new_buffer-buffer-on-failure", c, "new", c.new)
+                else: st.hist[("new-buffer-null-on-failure", c.syn)] += 1
         # ---- P: asn_encode_to_buffer, every size: same size, no overrun, prefix
         for n, o in c.buf.items():
             if dead(o): continue
@@ -743,4 +742,4 @@ def run(ctx):
                        "non-trivial = the case went through the size sweep and the failure sweep (valid) or was refused by the encoder")
     report(ctx, st)
     for key, n in sorted(st.hist.items()):
-        if key[0] in ("valid-value-refused", "known-crash", "F39", "invalid-accepted"): ctx.log("stat", "/".join(key), n)
+        if key[0] in ("valid-value-refused", "known-crash", "new-buffer-null-on-failure", "invalid-accepted"): ctx.log("stat", "/".join(key), n)
